@@ -1,5 +1,5 @@
 // auto-generated: "lalrpop 0.23.1"
-// sha3: 6f3fe33a294b9dffa9be37699e2898845aed700d77e592cfc8e4cb33b2a4876a
+// sha3: 63971944289dec6d0e1cff6410412d8ebf2332f24f80507c80477e90fba9ac33
 use crate::rt::*;
 #[allow(unused_extern_crates)]
 extern crate lalrpop_util as __lalrpop_util;
@@ -65,10 +65,10 @@ mod __parse__S {
      {
         _40L((i64, i64, i64)),
         _40R((i64, i64, i64)),
-        Q((i64, Tree, i64)),
         S((i64, Tree, i64)),
         X((i64, Tree, i64)),
         Y((i64, Tree, i64)),
+        Z((i64, Tree, i64)),
         ____S((i64, Tree, i64)),
     }
 
@@ -148,10 +148,15 @@ mod __parse__S {
                 let __sym1 = (__loc1, (__tok), __loc2);
                 __result = __state3(__tokens, __sym1, core::marker::PhantomData::<()>)?;
             }
+            Some((__loc1, __tok @ Tok('f', _, _, _), __loc2)) => {
+                let __sym1 = (__loc1, (__tok), __loc2);
+                __result = __state4(__tokens, __sym1, core::marker::PhantomData::<()>)?;
+            }
             _ => {
                 #[allow(clippy::needless_raw_string_hashes)]
                 let __expected = alloc::vec![
                     r###""e""###.to_string(),
+                    r###""f""###.to_string(),
                 ];
                 return Err(
                     match __lookahead {
@@ -208,12 +213,17 @@ mod __parse__S {
         match __lookahead {
             Some((__loc1, __tok @ Tok('e', _, _, _), __loc2)) => {
                 let __sym1 = (__loc1, (__tok), __loc2);
+                __result = __state3(__tokens, __sym1, core::marker::PhantomData::<()>)?;
+            }
+            Some((__loc1, __tok @ Tok('f', _, _, _), __loc2)) => {
+                let __sym1 = (__loc1, (__tok), __loc2);
                 __result = __state4(__tokens, __sym1, core::marker::PhantomData::<()>)?;
             }
             _ => {
                 #[allow(clippy::needless_raw_string_hashes)]
                 let __expected = alloc::vec![
                     r###""e""###.to_string(),
+                    r###""f""###.to_string(),
                 ];
                 return Err(
                     match __lookahead {
@@ -268,14 +278,14 @@ mod __parse__S {
             None => None,
         };
         match __lookahead {
-            Some((__loc1, __tok @ Tok('f', _, _, _), __loc2)) => {
+            Some((__loc1, __tok @ Tok('g', _, _, _), __loc2)) => {
                 let __sym1 = (__loc1, (__tok), __loc2);
                 __result = __state13(__tokens, __sym1, core::marker::PhantomData::<()>)?;
             }
             _ => {
                 #[allow(clippy::needless_raw_string_hashes)]
                 let __expected = alloc::vec![
-                    r###""q""###.to_string(),
+                    r###""x""###.to_string(),
                 ];
                 return Err(
                     match __lookahead {
@@ -300,7 +310,7 @@ mod __parse__S {
         loop {
             let (__lookahead, __nt) = __result;
             match __nt {
-                __Nonterminal::Q(__sym1) => {
+                __Nonterminal::Z(__sym1) => {
                     __result = __state12(__tokens, __lookahead, __sym0, __sym1, core::marker::PhantomData::<()>)?;
                     return Ok(__result);
                 }
@@ -326,14 +336,14 @@ mod __parse__S {
             None => None,
         };
         match __lookahead {
-            Some((__loc1, __tok @ Tok('f', _, _, _), __loc2)) => {
+            Some((__loc1, __tok @ Tok('g', _, _, _), __loc2)) => {
                 let __sym1 = (__loc1, (__tok), __loc2);
                 __result = __state13(__tokens, __sym1, core::marker::PhantomData::<()>)?;
             }
             _ => {
                 #[allow(clippy::needless_raw_string_hashes)]
                 let __expected = alloc::vec![
-                    r###""q""###.to_string(),
+                    r###""x""###.to_string(),
                 ];
                 return Err(
                     match __lookahead {
@@ -358,8 +368,8 @@ mod __parse__S {
         loop {
             let (__lookahead, __nt) = __result;
             match __nt {
-                __Nonterminal::Q(__sym1) => {
-                    __result = __state16(__tokens, __lookahead, __sym0, __sym1, core::marker::PhantomData::<()>)?;
+                __Nonterminal::Z(__sym1) => {
+                    __result = __state14(__tokens, __lookahead, __sym0, __sym1, core::marker::PhantomData::<()>)?;
                     return Ok(__result);
                 }
                 _ => {
@@ -517,7 +527,7 @@ mod __parse__S {
         match __lookahead {
             Some((__loc1, __tok @ Tok('c', _, _, _), __loc2)) => {
                 let __sym2 = (__loc1, (__tok), __loc2);
-                __result = __state14(__tokens, __sym0, __sym1, __sym2, core::marker::PhantomData::<()>)?;
+                __result = __state15(__tokens, __sym0, __sym1, __sym2, core::marker::PhantomData::<()>)?;
                 return Ok(__result);
             }
             _ => {
@@ -560,7 +570,7 @@ mod __parse__S {
         match __lookahead {
             Some((__loc1, __tok @ Tok('d', _, _, _), __loc2)) => {
                 let __sym2 = (__loc1, (__tok), __loc2);
-                __result = __state15(__tokens, __sym0, __sym1, __sym2, core::marker::PhantomData::<()>)?;
+                __result = __state16(__tokens, __sym0, __sym1, __sym2, core::marker::PhantomData::<()>)?;
                 return Ok(__result);
             }
             _ => {
@@ -609,7 +619,7 @@ mod __parse__S {
             None => {
                 let __start = __sym0.0.clone();
                 let __end = __sym2.2.clone();
-                let __nt = super::__action18::<>(__sym0, __sym1, __sym2);
+                let __nt = super::__action17::<>(__sym0, __sym1, __sym2);
                 let __nt = __Nonterminal::S((
                     __start,
                     __nt,
@@ -709,23 +719,12 @@ mod __parse__S {
     {
         let mut __result: (Option<(i64, Tok, i64)>, __Nonterminal<>);
         match __lookahead {
+            Some((_, Tok('c', _, _, _), _)) |
             Some((_, Tok('d', _, _, _), _)) => {
                 let __start = __sym0.0.clone();
                 let __end = __sym1.2.clone();
-                let __nt = super::__action22::<>(__sym0, __sym1);
+                let __nt = super::__action21::<>(__sym0, __sym1);
                 let __nt = __Nonterminal::X((
-                    __start,
-                    __nt,
-                    __end,
-                ));
-                __result = (__lookahead, __nt);
-                return Ok(__result);
-            }
-            Some((_, Tok('c', _, _, _), _)) => {
-                let __start = __sym0.0.clone();
-                let __end = __sym1.2.clone();
-                let __nt = super::__action23::<>(__sym0, __sym1);
-                let __nt = __Nonterminal::Y((
                     __start,
                     __nt,
                     __end,
@@ -779,8 +778,8 @@ mod __parse__S {
             Some((_, Tok('d', _, _, _), _)) => {
                 let __start = __sym0.0.clone();
                 let __end = __sym0.2.clone();
-                let __nt = super::__action17::<>(__sym0);
-                let __nt = __Nonterminal::Q((
+                let __nt = super::__action23::<>(__sym0);
+                let __nt = __Nonterminal::Z((
                     __start,
                     __nt,
                     __end,
@@ -816,6 +815,112 @@ mod __parse__S {
     }
 
     fn __state14<
+        __TOKENS: Iterator<Item=Result<(i64, Tok, i64),__lalrpop_util::ParseError<i64, Tok, u64>>>,
+    >(
+        __tokens: &mut __TOKENS,
+        __lookahead: Option<(i64, Tok, i64)>,
+        __sym0: (i64, Tok, i64),
+        __sym1: (i64, Tree, i64),
+        _: core::marker::PhantomData<()>,
+    ) -> Result<(Option<(i64, Tok, i64)>, __Nonterminal<>), __lalrpop_util::ParseError<i64, Tok, u64>>
+    {
+        let mut __result: (Option<(i64, Tok, i64)>, __Nonterminal<>);
+        match __lookahead {
+            Some((_, Tok('c', _, _, _), _)) |
+            Some((_, Tok('d', _, _, _), _)) => {
+                let __start = __sym0.0.clone();
+                let __end = __sym1.2.clone();
+                let __nt = super::__action22::<>(__sym0, __sym1);
+                let __nt = __Nonterminal::Y((
+                    __start,
+                    __nt,
+                    __end,
+                ));
+                __result = (__lookahead, __nt);
+                return Ok(__result);
+            }
+            _ => {
+                #[allow(clippy::needless_raw_string_hashes)]
+                let __expected = alloc::vec![
+                    r###""c""###.to_string(),
+                    r###""d""###.to_string(),
+                ];
+                return Err(
+                    match __lookahead {
+                        Some(__token) => {
+                            __lalrpop_util::ParseError::UnrecognizedToken {
+                                token: __token,
+                                expected: __expected,
+                            }
+                        }
+                        None => {
+                            let __location = __sym1.2.clone();
+                            __lalrpop_util::ParseError::UnrecognizedEof {
+                                location: __location,
+                                expected: __expected,
+                            }
+                        }
+                    }
+                )
+            }
+        }
+    }
+
+    fn __state15<
+        __TOKENS: Iterator<Item=Result<(i64, Tok, i64),__lalrpop_util::ParseError<i64, Tok, u64>>>,
+    >(
+        __tokens: &mut __TOKENS,
+        __sym0: (i64, Tok, i64),
+        __sym1: (i64, Tree, i64),
+        __sym2: (i64, Tok, i64),
+        _: core::marker::PhantomData<()>,
+    ) -> Result<(Option<(i64, Tok, i64)>, __Nonterminal<>), __lalrpop_util::ParseError<i64, Tok, u64>>
+    {
+        let mut __result: (Option<(i64, Tok, i64)>, __Nonterminal<>);
+        let __lookahead = match __tokens.next() {
+            Some(Ok(v)) => Some(v),
+            Some(Err(e)) => return Err(e),
+            None => None,
+        };
+        match __lookahead {
+            None => {
+                let __start = __sym0.0.clone();
+                let __end = __sym2.2.clone();
+                let __nt = super::__action18::<>(__sym0, __sym1, __sym2);
+                let __nt = __Nonterminal::S((
+                    __start,
+                    __nt,
+                    __end,
+                ));
+                __result = (__lookahead, __nt);
+                return Ok(__result);
+            }
+            _ => {
+                #[allow(clippy::needless_raw_string_hashes)]
+                let __expected = alloc::vec![
+                ];
+                return Err(
+                    match __lookahead {
+                        Some(__token) => {
+                            __lalrpop_util::ParseError::UnrecognizedToken {
+                                token: __token,
+                                expected: __expected,
+                            }
+                        }
+                        None => {
+                            let __location = __sym2.2.clone();
+                            __lalrpop_util::ParseError::UnrecognizedEof {
+                                location: __location,
+                                expected: __expected,
+                            }
+                        }
+                    }
+                )
+            }
+        }
+    }
+
+    fn __state16<
         __TOKENS: Iterator<Item=Result<(i64, Tok, i64),__lalrpop_util::ParseError<i64, Tok, u64>>>,
     >(
         __tokens: &mut __TOKENS,
@@ -858,123 +963,6 @@ mod __parse__S {
                         }
                         None => {
                             let __location = __sym2.2.clone();
-                            __lalrpop_util::ParseError::UnrecognizedEof {
-                                location: __location,
-                                expected: __expected,
-                            }
-                        }
-                    }
-                )
-            }
-        }
-    }
-
-    fn __state15<
-        __TOKENS: Iterator<Item=Result<(i64, Tok, i64),__lalrpop_util::ParseError<i64, Tok, u64>>>,
-    >(
-        __tokens: &mut __TOKENS,
-        __sym0: (i64, Tok, i64),
-        __sym1: (i64, Tree, i64),
-        __sym2: (i64, Tok, i64),
-        _: core::marker::PhantomData<()>,
-    ) -> Result<(Option<(i64, Tok, i64)>, __Nonterminal<>), __lalrpop_util::ParseError<i64, Tok, u64>>
-    {
-        let mut __result: (Option<(i64, Tok, i64)>, __Nonterminal<>);
-        let __lookahead = match __tokens.next() {
-            Some(Ok(v)) => Some(v),
-            Some(Err(e)) => return Err(e),
-            None => None,
-        };
-        match __lookahead {
-            None => {
-                let __start = __sym0.0.clone();
-                let __end = __sym2.2.clone();
-                let __nt = super::__action21::<>(__sym0, __sym1, __sym2);
-                let __nt = __Nonterminal::S((
-                    __start,
-                    __nt,
-                    __end,
-                ));
-                __result = (__lookahead, __nt);
-                return Ok(__result);
-            }
-            _ => {
-                #[allow(clippy::needless_raw_string_hashes)]
-                let __expected = alloc::vec![
-                ];
-                return Err(
-                    match __lookahead {
-                        Some(__token) => {
-                            __lalrpop_util::ParseError::UnrecognizedToken {
-                                token: __token,
-                                expected: __expected,
-                            }
-                        }
-                        None => {
-                            let __location = __sym2.2.clone();
-                            __lalrpop_util::ParseError::UnrecognizedEof {
-                                location: __location,
-                                expected: __expected,
-                            }
-                        }
-                    }
-                )
-            }
-        }
-    }
-
-    fn __state16<
-        __TOKENS: Iterator<Item=Result<(i64, Tok, i64),__lalrpop_util::ParseError<i64, Tok, u64>>>,
-    >(
-        __tokens: &mut __TOKENS,
-        __lookahead: Option<(i64, Tok, i64)>,
-        __sym0: (i64, Tok, i64),
-        __sym1: (i64, Tree, i64),
-        _: core::marker::PhantomData<()>,
-    ) -> Result<(Option<(i64, Tok, i64)>, __Nonterminal<>), __lalrpop_util::ParseError<i64, Tok, u64>>
-    {
-        let mut __result: (Option<(i64, Tok, i64)>, __Nonterminal<>);
-        match __lookahead {
-            Some((_, Tok('c', _, _, _), _)) => {
-                let __start = __sym0.0.clone();
-                let __end = __sym1.2.clone();
-                let __nt = super::__action22::<>(__sym0, __sym1);
-                let __nt = __Nonterminal::X((
-                    __start,
-                    __nt,
-                    __end,
-                ));
-                __result = (__lookahead, __nt);
-                return Ok(__result);
-            }
-            Some((_, Tok('d', _, _, _), _)) => {
-                let __start = __sym0.0.clone();
-                let __end = __sym1.2.clone();
-                let __nt = super::__action23::<>(__sym0, __sym1);
-                let __nt = __Nonterminal::Y((
-                    __start,
-                    __nt,
-                    __end,
-                ));
-                __result = (__lookahead, __nt);
-                return Ok(__result);
-            }
-            _ => {
-                #[allow(clippy::needless_raw_string_hashes)]
-                let __expected = alloc::vec![
-                    r###""c""###.to_string(),
-                    r###""d""###.to_string(),
-                ];
-                return Err(
-                    match __lookahead {
-                        Some(__token) => {
-                            __lalrpop_util::ParseError::UnrecognizedToken {
-                                token: __token,
-                                expected: __expected,
-                            }
-                        }
-                        None => {
-                            let __location = __sym1.2.clone();
                             __lalrpop_util::ParseError::UnrecognizedEof {
                                 location: __location,
                                 expected: __expected,
@@ -1082,7 +1070,7 @@ fn __action7<
     (_, r, _): (i64, i64, i64),
 ) -> Tree
 {
-    node("Q#0", l, r, vec![Tree::from(c0)])
+    node("Z#0", l, r, vec![Tree::from(c0)])
 }
 
 #[allow(clippy::needless_lifetimes, clippy::clone_on_copy)]
@@ -1110,28 +1098,6 @@ fn __action9<
 fn __action10<
 >(
     __0: (i64, Tok, i64),
-    __1: (i64, i64, i64),
-) -> Tree
-{
-    let __start0 = __0.0.clone();
-    let __end0 = __0.0.clone();
-    let __temp0 = __action9(
-        &__start0,
-        &__end0,
-    );
-    let __temp0 = (__start0, __temp0, __end0);
-    __action7(
-        __temp0,
-        __0,
-        __1,
-    )
-}
-
-#[allow(clippy::too_many_arguments, clippy::needless_lifetimes,
-    clippy::just_underscores_and_digits, clippy::clone_on_copy, clippy::unit_arg)]
-fn __action11<
->(
-    __0: (i64, Tok, i64),
     __1: (i64, Tree, i64),
     __2: (i64, Tok, i64),
     __3: (i64, i64, i64),
@@ -1155,7 +1121,7 @@ fn __action11<
 
 #[allow(clippy::too_many_arguments, clippy::needless_lifetimes,
     clippy::just_underscores_and_digits, clippy::clone_on_copy, clippy::unit_arg)]
-fn __action12<
+fn __action11<
 >(
     __0: (i64, Tok, i64),
     __1: (i64, Tree, i64),
@@ -1181,7 +1147,7 @@ fn __action12<
 
 #[allow(clippy::too_many_arguments, clippy::needless_lifetimes,
     clippy::just_underscores_and_digits, clippy::clone_on_copy, clippy::unit_arg)]
-fn __action13<
+fn __action12<
 >(
     __0: (i64, Tok, i64),
     __1: (i64, Tree, i64),
@@ -1207,7 +1173,7 @@ fn __action13<
 
 #[allow(clippy::too_many_arguments, clippy::needless_lifetimes,
     clippy::just_underscores_and_digits, clippy::clone_on_copy, clippy::unit_arg)]
-fn __action14<
+fn __action13<
 >(
     __0: (i64, Tok, i64),
     __1: (i64, Tree, i64),
@@ -1233,7 +1199,7 @@ fn __action14<
 
 #[allow(clippy::too_many_arguments, clippy::needless_lifetimes,
     clippy::just_underscores_and_digits, clippy::clone_on_copy, clippy::unit_arg)]
-fn __action15<
+fn __action14<
 >(
     __0: (i64, Tok, i64),
     __1: (i64, Tree, i64),
@@ -1257,7 +1223,7 @@ fn __action15<
 
 #[allow(clippy::too_many_arguments, clippy::needless_lifetimes,
     clippy::just_underscores_and_digits, clippy::clone_on_copy, clippy::unit_arg)]
-fn __action16<
+fn __action15<
 >(
     __0: (i64, Tok, i64),
     __1: (i64, Tree, i64),
@@ -1281,13 +1247,37 @@ fn __action16<
 
 #[allow(clippy::too_many_arguments, clippy::needless_lifetimes,
     clippy::just_underscores_and_digits, clippy::clone_on_copy, clippy::unit_arg)]
+fn __action16<
+>(
+    __0: (i64, Tok, i64),
+    __1: (i64, i64, i64),
+) -> Tree
+{
+    let __start0 = __0.0.clone();
+    let __end0 = __0.0.clone();
+    let __temp0 = __action9(
+        &__start0,
+        &__end0,
+    );
+    let __temp0 = (__start0, __temp0, __end0);
+    __action7(
+        __temp0,
+        __0,
+        __1,
+    )
+}
+
+#[allow(clippy::too_many_arguments, clippy::needless_lifetimes,
+    clippy::just_underscores_and_digits, clippy::clone_on_copy, clippy::unit_arg)]
 fn __action17<
 >(
     __0: (i64, Tok, i64),
+    __1: (i64, Tree, i64),
+    __2: (i64, Tok, i64),
 ) -> Tree
 {
-    let __start0 = __0.2.clone();
-    let __end0 = __0.2.clone();
+    let __start0 = __2.2.clone();
+    let __end0 = __2.2.clone();
     let __temp0 = __action8(
         &__start0,
         &__end0,
@@ -1295,6 +1285,8 @@ fn __action17<
     let __temp0 = (__start0, __temp0, __end0);
     __action10(
         __0,
+        __1,
+        __2,
         __temp0,
     )
 }
@@ -1377,11 +1369,10 @@ fn __action21<
 >(
     __0: (i64, Tok, i64),
     __1: (i64, Tree, i64),
-    __2: (i64, Tok, i64),
 ) -> Tree
 {
-    let __start0 = __2.2.clone();
-    let __end0 = __2.2.clone();
+    let __start0 = __1.2.clone();
+    let __end0 = __1.2.clone();
     let __temp0 = __action8(
         &__start0,
         &__end0,
@@ -1390,7 +1381,6 @@ fn __action21<
     __action14(
         __0,
         __1,
-        __2,
         __temp0,
     )
 }
@@ -1422,11 +1412,10 @@ fn __action22<
 fn __action23<
 >(
     __0: (i64, Tok, i64),
-    __1: (i64, Tree, i64),
 ) -> Tree
 {
-    let __start0 = __1.2.clone();
-    let __end0 = __1.2.clone();
+    let __start0 = __0.2.clone();
+    let __end0 = __0.2.clone();
     let __temp0 = __action8(
         &__start0,
         &__end0,
@@ -1434,7 +1423,6 @@ fn __action23<
     let __temp0 = (__start0, __temp0, __end0);
     __action16(
         __0,
-        __1,
         __temp0,
     )
 }
